@@ -106,6 +106,22 @@ PROFILES = {
             "opaque_generic": ["Deps", "DepsMut"],
             "leading_binders": "(branchDeps : DepsMut → DepsMut)", "leading_args": "branchDeps",
             "extern_methods": {"branch": "branchDeps"}},
+    # the exec / migrate proxies of the multitest helpers and `downcast_error` (C12): what is handed to the chain, and what is made of
+    # the chain's answer; the chain's two operations are the parameter `chain` (RustExtern.Mt.Chain)
+    "mtproxy": {"src": ("sylvia", "src", "multitest.rs"), "out": "MtProxyFns.lean", "ns": "Extracted.MtProxyFns",
+                "imports": ["Sylvia.Model.RustSem", "Sylvia.Model.RustExtern"], "opens": "open RustSem RustExtern RustExtern.Mt",
+                "vars": "variable {App Msg Coin Resp Error : Type}", "str": "String",
+                "only": ["downcast_error", "ExecProxy.new", "ExecProxy.with_funds", "ExecProxy.call", "MigrateProxy.new", "MigrateProxy.call"],
+                "only_enums": [], "only_structs": ["ExecProxy", "MigrateProxy"], "tparams": ["App", "Msg", "Coin"], "type_vars": ["Error", "Msg", "Coin"],
+                "skip_field_types": ["PhantomData"], "opaque_generic": ["App"],
+                "extern_types": {"Addr": "String", "AppResponse": "Resp"},
+                "extern_paths": {"anyhow::Error": "AnyErr Error"},
+                "leading_binders": "(chain : Chain App Msg Coin Resp Error) (fromStd : StdError → Error)", "leading_args": "chain fromStd",
+                "extern_calls": {"StdError::generic_err": "StdError.generic_err", "Addr::unchecked": "id"},
+                "turbofish_methods": {("is", "Error"): "AnyErr.isOwn", ("is", "StdError"): "AnyErr.isStd",
+                                      ("downcast", "Error"): "AnyErr.downcastOwn", ("downcast", "StdError"): "AnyErr.downcastStd"},
+                "into": "fromStd", "to_string": "AnyErr.text",
+                "chain_methods": {"execute_contract": "chain.execute_contract", "migrate_contract": "chain.migrate_contract"}},
     # the bridge to chain-custom types (C11): `IntoMsg::into_msg` and `IntoResponse::into_response`, trait methods on cosmwasm_std's
     # SubMsg / Response (declared in Sylvia/Model/RustExtern.lean); arms compiled under `#[cfg(feature = "..")]` become
     # `if feat ".." then <arm> else <the wildcard arm>`, so the regenerated function is the code under every feature set at once
@@ -185,6 +201,10 @@ class FnTr:
             fn = dict(fn, generics=[])
             self.fn = fn
         self.generics = [g[1] for g in fn["generics"]]
+        if self.mod.profile.get("type_vars"):
+            fn = dict(fn, generics=[g for g in fn["generics"] if not (g[0] == "unsupported" and g[1].split(":")[0].strip() in self.mod.profile["type_vars"])])
+            self.fn = fn
+            self.generics = [g[1] for g in fn["generics"]]
         for g in fn["generics"]:
             if g[0] != "const":
                 raise Unsupported("generic parameter %s" % g)
@@ -345,7 +365,7 @@ class FnTr:
             return self.args(e[1], lambda vs: k("(%s)" % ", ".join(vs)))
         if t == "matches":
             return self.ex(e[1], lambda v: k("(match %s with | %s => true | _ => false)" % (v, self.pat(e[2]))))
-        if t == "vec":
+        if t in ("vec", "array"):
             return self.args(e[1], lambda vs: k("[%s]" % ", ".join(vs)))
         if t == "struct":
             path, fields, rest_ = e[1], e[2], e[3]
@@ -414,7 +434,7 @@ class FnTr:
                 return self.ex(e[1], lambda r: k("%s.length" % r))
             if name == "is_empty" and not e[3]:
                 return self.ex(e[1], lambda r: k("%s.isEmpty" % r))
-            if name == "into" and not e[3]:
+            if name == "into" and not e[3] and not self.mod.profile.get("into"):
                 return self.ex(e[1], k)      # only for arguments typed `impl Into<String>` (see ModTr.ty)
             if name == "unwrap_or_default" and not e[3]:
                 return self.ex(e[1], lambda r: k("(%s.getD default)" % r))
@@ -424,6 +444,44 @@ class FnTr:
                 return self.ex(e[1], lambda r: k("(toLower %s)" % r))
             if name == "char_indices" and not e[3]:
                 return self.ex(e[1], lambda r: k("(charIndices %s)" % r))
+            turbo = ((e[4] if len(e) > 4 else None) or "").replace(" ", "")
+            tm = self.mod.profile.get("turbofish_methods", {})
+            if (name, turbo) in tm and not e[3]:
+                return self.ex(e[1], lambda r: k("(%s %s)" % (tm[(name, turbo)], r)))
+            if name == "unwrap" and not e[3] and self.mod.profile.get("turbofish_methods"):
+                def ku(r):
+                    v = hint or self.fresh()
+                    return ["(unwrap %s).bind fun %s =>" % (r, v)] + k(v)
+                return self.ex(e[1], ku)
+            if name == "app_mut" and not e[3] and self.mod.profile.get("chain_methods"):
+                return self.ex(e[1], k)      # `RefCell::borrow_mut` of the chain: the chain itself
+            if name in self.mod.profile.get("chain_methods", {}):
+                return self.ex(e[1], lambda r: self.args(e[3], lambda vs: k("(%s %s)" % (self.mod.profile["chain_methods"][name], " ".join([r] + vs)))))
+            if name == "map_err" and len(e[3]) == 1:
+                f = e[3][0]
+                if self.depth:
+                    raise Unsupported("closure inside a loop")
+                if f[0] == "closure" and len(f[1]) == 1:
+                    cpat = self.pat(f[1][0])
+                    body = self.ex(f[2], lambda v: [".ok %s" % v])
+
+                    def km_(r):
+                        v = hint or self.fresh()
+                        return ["(mapErrRes (fun %s =>" % cpat] + ind(body, 2) + ["  ) %s).bind fun %s =>" % (r, v)] + k(v)
+                    return self.ex(e[1], km_)
+                if f[0] == "path" and len(f[1]) == 1 and f[1][0] in self.mod.fns:
+                    callee = f[1][0]
+                    self.mod.calls.setdefault(self.name, set()).add(callee)
+
+                    def km2(r):
+                        v = hint or self.fresh()
+                        return ["(mapErrRes (%s) %s).bind fun %s =>" % (self.mod.call_text(callee, self, []), r, v)] + k(v)
+                    return self.ex(e[1], km2)
+                raise Unsupported("map_err with %s" % json.dumps(f)[:60])
+            if name == "into" and not e[3] and self.mod.profile.get("into"):
+                return self.ex(e[1], lambda r: k("(%s %s)" % (self.mod.profile["into"], r)))
+            if name == "to_string" and not e[3] and self.mod.profile.get("to_string"):
+                return self.ex(e[1], lambda r: k("(%s %s)" % (self.mod.profile["to_string"], r)))
             if name == "to_string" and not e[3]:
                 return self.ex(e[1], lambda r: k("(toStr %s)" % r))
             if name in ("to_owned", "clone") and not e[3]:
@@ -1010,11 +1068,15 @@ class ModTr:
                 return name
             if name in getattr(self, "structs", {}):
                 return self.struct_ty(name)
+            if name == "Result" and len(t[2]) == 2:
+                return "Except %s %s" % (FnTr.paren_ty(self.ty(t[2][1])), FnTr.paren_ty(self.ty(t[2][0])))
             if name in self.profile.get("extern_generic", {}) and (len(t[2]) == 1 or name == "Punctuated"):
                 return "%s %s" % (self.profile["extern_generic"][name], FnTr.paren_ty(self.ty(t[2][0])))
             raise Unsupported("type constructor %s" % name)
         if k == "tpath":
             p = t[1]
+            if "::".join(p) in self.profile.get("extern_paths", {}):
+                return self.profile["extern_paths"]["::".join(p)]
             if p == ["usize"]:
                 return "Nat"
             if p == ["bool"]:
@@ -1027,7 +1089,7 @@ class ModTr:
                 return "Nat"
             if len(p) == 1 and p[0] in self.profile.get("tparams", []) + self.profile.get("type_vars", []):
                 return p[0]
-            if p[-1] in self.profile.get("extern_types", {}) and (len(p) == 1 or p[0] in ("cosmwasm_std", "std")):
+            if p[-1] in self.profile.get("extern_types", {}) and (len(p) == 1 or p[0] in ("cosmwasm_std", "std", "cw_multi_test")):
                 return self.profile["extern_types"][p[-1]]
             if len(p) == 1 and p[0] in getattr(self, "structs", {}):
                 return self.struct_ty(p[0])
@@ -1050,6 +1112,8 @@ class ModTr:
                     for cand in ("%s.%s" % tuple(n[1][1]), "%s.%s_%d" % (n[1][1][0], n[1][1][1], len(n[2]))):
                         if cand in self.fns and cand != f:
                             calls.setdefault(f, set()).add(cand)
+                if len(n) >= 4 and n[0] == "mcall" and n[2] == "map_err" and len(n[3]) == 1 and n[3][0][0] == "path" and len(n[3][0][1]) == 1 and n[3][0][1][0] in self.fns:
+                    calls.setdefault(f, set()).add(n[3][0][1][0])
                 if len(n) >= 4 and n[0] == "mcall" and isinstance(n[2], str):
                     cands = [m for m in self.fns if "." in m and m.split(".")[-1] == n[2]]
                     if len(cands) == 1 and cands[0] != f:
@@ -1110,6 +1174,8 @@ class ModTr:
         if callee in self.fuel:
             parts.append("fuel0")
         for g in f["generics"]:
+            if g[0] == "unsupported" and g[1].split(":")[0].strip() in self.profile.get("type_vars", []):
+                continue
             if g[1] not in caller.types:
                 raise Unsupported("const generic %s of %s not in scope in %s" % (g[1], callee, caller.name))
             parts.append(g[1])
